@@ -308,6 +308,11 @@ def make_case(rng, method, nk, lk, pattern=None, masked=None):
             "types": [rng.choice([1, 2]) for _ in range(n_full)] if mask is None and rng.random() < 0.25 else None,
             "parallel": rng.random() < 0.3,
             "tol": rng.choice([None, None, 1.0 / 1024, 0.0])}
+    # max_functions is ropt's own evaluation budget (EnsembleOptimizer stops the run): it must never displace the
+    # iteration limit in the back-end's options, whichever of the two is larger
+    mi = prob["max_iter"]
+    # (at least 12: the capturing driver itself evaluates the constraint callables at the 4 test points through the real callback)
+    prob["max_functions"] = rng.choice([None, None, 12 + rng.randint(0, 4), (mi or 20) + rng.randint(12, 200), max(12, mi or 20)])
     return {"prob": prob, "funcs": funcs, "points": points, "kinds": [list(nk), list(lk)], "pattern": pattern}
 
 
@@ -646,6 +651,8 @@ def features(case, obs):
             "masked": p["mask"] is not None,
             "options": "None" if o is None else "list" if "list" in o else "{}" if not o["dict"] else "dict",
             "max_iterations": p["max_iter"] is not None,
+            "max_functions": "none" if p.get("max_functions") is None else "without max_iterations" if p["max_iter"] is None else
+                             "smaller" if p["max_functions"] < p["max_iter"] else "larger" if p["max_functions"] > p["max_iter"] else "equal",
             "explicit_start_vector": p.get("start") is not None,
             "twin_outside_known_region": bool(case.get("twin")),
             "bound_pattern": _bound_pattern(p),
@@ -672,7 +679,7 @@ def _bound_pattern(p):
 
 def shrink(case):
     p = case["prob"]
-    for key, val in (("output_dir", None), ("types", None), ("tol", None), ("parallel", False)):
+    for key, val in (("output_dir", None), ("types", None), ("tol", None), ("parallel", False), ("max_functions", None)):
         if p.get(key) not in (None, False):
             yield {**case, "prob": {**p, key: val}}
     if p["spelling"] != p["method"]:
@@ -707,7 +714,8 @@ RULE = ("exhaustive over constraint kinds {equality, lower-only, upper-only, two
         "with 0/1 constraints of each kind (rejections) and many unconstrained configurations; per case random dyadic bounds "
         "(mostly anchored at the first test point so that feasible and infeasible points both occur), coefficients, variable "
         "bounds with any mix of finite/infinite entries, masks (rows touching fixed variables and rows that survive), method "
-        "spelling, options in {None, list, {}, dict with/without an iteration key}, max_iterations, output_dir, variable types, "
+        "spelling, options in {None, list, {}, dict with/without an iteration key}, max_iterations, max_functions (none / "
+        "smaller / equal / larger than max_iterations; the back-end's iteration key must still carry max_iterations), output_dir, variable types, "
         "parallel, tolerance, and 4 test points; in about a third of the cases the optimizer is started from an explicit vector "
         "different from the configured initial values. A deterministic stream gives every method (also those without bound "
         "support) every finite/infinite pattern of variable bounds: all-lower-only, all-upper-only, a single lower / upper bound, "
